@@ -205,7 +205,14 @@ pub fn gen_aggregate_query(t: &mut Tape, table: &DataTable, ctx: &Ctx, order_sen
     for (i, k) in q.group_by.iter().enumerate() {
         if t.chance(3, 4) {
             let alias = if matches!(k, E::Col(_)) && t.chance(1, 2) { None } else { Some(format!("k{}", i)) };
-            items.push((k.clone(), alias));
+            let mut item = k.clone();
+            if let E::Bin(op, l, r) = k {
+                if **r == E::Int(2) && t.chance(1, 5) {
+                    // almost the key expression: the INT literal written as a REAL (another expression, hence not a group key)
+                    item = E::Bin(*op, l.clone(), Box::new(E::Real("2.0".into())));
+                }
+            }
+            items.push((item, alias));
         }
     }
     let naggs = if ctx.excluded("c04_keys_only") { 1 + t.draw(3) } else { t.weighted(&[1, 6, 4, 2]) };
